@@ -17,8 +17,8 @@ claim("C06","muxsim","exploration",
  "Open/transfer/close cycles with every close style and forced re-use of the same flow id after both applications let go; prefix/EOF rules for the aborted peer, fresh byte/credit models for the re-opened stream, black-box slot-leak probe.",
  NOTE_E1, T_DST, "DESIGN.md §6 C06")
 claim("C07","muxsim","exploration",
- "Crossing opens with scripted colliding flow-id generators on both sides; request<->accept matching on exact host bytes and port, wire discipline of Connect ids and windows, behavioural initial-credit check, retry bound.",
- NOTE_E1, T_DST, "DESIGN.md §6 C07")
+ "Crossing opens with scripted colliding flow-id generators on both sides; request<->accept matching on exact host bytes and port, wire discipline of Connect ids and windows, behavioural initial-credit check, retry bound. Second part (loom, same command): application threads inside the synchronous id allocation against each other and against the connection task accepting the peer's Connect, generator scripted to collide, every interleaving up to the preemption bound.",
+ NOTE_E1, T_DST, "DESIGN.md §6 C07, §13.9")
 claim("C11","muxsim","exploration",
  "Datagram bursts over the full field domain against an exact bounded-queue model evaluated on the global event order, with checked stream traffic in parallel.",
  NOTE_E1, T_DST, "DESIGN.md §6 C11")
